@@ -269,5 +269,7 @@ fn('base_mab.BaseMAB._partition_contexts', props='C05 C08',
             '[lens] slen(result[1]) == result[0] and slen(result[2]) == result[0] + 1',
             '[first] ival(result[2], 0) == 0', '[last] ival(result[2], result[0]) == n_contexts',
             '[chunks] forall_int(lambda i: implies(0 <= i and i < result[0], ival(result[1], i) >= 0 and '
-            'ival(result[2], i + 1) - ival(result[2], i) == ival(result[1], i)), lambda i: ival(result[1], i))',
+            'ival(result[2], i + 1) - ival(result[2], i) == ival(result[1], i)), lambda i: ival(result[2], i + 1))',
+            '[bounds] forall_int(lambda i: implies(0 <= i and i <= result[0], 0 <= ival(result[2], i) and '
+            'ival(result[2], i) <= n_contexts), lambda i: ival(result[2], i))',
             '[total] isum_of(result[1]) == n_contexts'])
